@@ -366,8 +366,7 @@ def parseFields (s : String) : Option (List Field) :=
   -- attribute names the model does not know are skipped (Props/C11 then fails its `decide`)
   if s == "-" then some [] else some ((s.splitOn ",").filterMap Field.ofPyName)
 
-/-- the environment of a case; the block table read by the callables is the input table (callables
-only look at input block names: `block`, `opsltold`) -/
+/-- the environment of a case -/
 def DSt.env (d : DSt) : Env :=
   { leaf := fun i s => match d.leaves.find? (·.1 == i) with
       | some (_, acts) => runActs acts s
@@ -375,11 +374,11 @@ def DSt.env (d : DSt) : Env :=
     cond := fun i a b => match d.conds.find? (·.1 == i) with
       | some (_, sp) => sp.eval a b
       | none => false
-    collect := fun i o => match d.collects.find? (·.1 == i) with
-      | some (_, sp) => sp.eval d.blocks o
+    collect := fun i bl o => match d.collects.find? (·.1 == i) with
+      | some (_, sp) => sp.eval bl o
       | none => false
-    rfilt := fun i new old => match d.rfilts.find? (·.1 == i) with
-      | some (_, sp) => sp.eval d.blocks new old
+    rfilt := fun i bl new old => match d.rfilts.find? (·.1 == i) with
+      | some (_, sp) => sp.eval bl new old
       | none => false
     filters := d.filters
     copyFields := d.copyF
